@@ -123,3 +123,14 @@ more("C18", "(seventh round) no build context carries tool tags.")
 more("C20", "(seventh round) LoadPackages only raises SrcModTime.")
 more("C08", "(seventh round) the builtin recover is deferred as $recover itself, never inside the proxy lambda.")
 more("C13", "(seventh round) the math.Modf overlay evaluated on representatives of every class of operand against Go's math.Modf.")
+
+# eighth round
+more("C01", "(eighth round) left-hand operands of a parallel assignment are stored in temporaries before the right-hand sides are evaluated.")
+more("C02", "(eighth round) each dispatch line of a flattened if/switch ladder follows the translation of its own condition; the recovered branch of $callDeferred does not return.")
+more("C04", "(eighth round) code that can name types of later-loaded packages is emitted inside $finishSetup.")
+more("C08", "(eighth round) panic values of the runtime overlay have RuntimeError(); remaining deferred calls run after a resumed recovery.")
+more("C10", "(eighth round) the local symbol of a go:linkname directive is looked up among functions without a receiver.")
+more("C11", "(eighth round) every $array[…] element access adds the same operand's $offset.")
+more("C12", "(eighth round) the directive-import table is consulted with the import path.")
+more("C13", "(eighth round) nosync.Map reads its map with comma-ok only.")
+more("C18", "(eighth round) isStd answers true only from the located package's Goroot flag.")
